@@ -585,12 +585,17 @@ pub fn generate(profile: &str, variant: &str, seed: u64, index: u64) -> SimScena
     };
 
     // mprotect faults: the first / the second mprotect call of an installation is refused (one-shot)
-    let mprotect_faults = |rng: &mut Rng, pol: &mut PolicySpec, classes: &mut Vec<String>, n_ops: u64| {
+    let mprotect_faults = |rng: &mut Rng, pol: &mut PolicySpec, classes: &mut Vec<String>, opts: &mut LayoutOpts, n_ops: u64| {
         if rng.chance(1, 10) {
             let second = rng.chance(1, 2);
             let ord = rng.below(n_ops.max(1));
             pol.fail_mprotect = vec![if second { 3000 + ord } else { ord }];
             classes.push(if second { "k-mprotect-fail-second-call".into() } else { "k-mprotect-fail".into() });
+        } else if rng.chance(1, 12) {
+            // the entry straddles a page boundary and the second page can never be made writable
+            pol.fail_mprotect = vec![2000, 2001];
+            opts.offset_class = Some(*rng.pick(&[2, 3, 3]));
+            classes.push("k-mprotect-second-page-2000".into());
         }
     };
     match profile {
@@ -696,7 +701,7 @@ pub fn generate(profile: &str, variant: &str, seed: u64, index: u64) -> SimScena
             opts.base_class = Some(*rng.pick(&[0, 1, 1, 2, 3]));
             opts.hood_class = Some(*rng.pick(&[0, 1, 2, 2, 2, 2, 3]));
             buggify_kernel(&mut rng, &mut pol, &mut classes, true);
-            mprotect_faults(&mut rng, &mut pol, &mut classes, 2);
+            mprotect_faults(&mut rng, &mut pol, &mut classes, &mut opts, 2);
             let mut l = gen_layout(&mut rng, arch, os, &pol, &opts);
             // buggify: kernel falls back to chosen places (inside the window although the hint was
             // occupied; exactly at +-range; just outside)
@@ -746,7 +751,7 @@ pub fn generate(profile: &str, variant: &str, seed: u64, index: u64) -> SimScena
                 buggify_kernel(&mut rng, &mut pol, &mut classes, true);
             }
             if mode >= 1 {
-                mprotect_faults(&mut rng, &mut pol, &mut classes, 2);
+                mprotect_faults(&mut rng, &mut pol, &mut classes, &mut opts, 2);
             }
             let l = gen_layout(&mut rng, arch, os, &pol, &opts);
             let mut ops = Vec::new();
@@ -778,7 +783,7 @@ pub fn generate(profile: &str, variant: &str, seed: u64, index: u64) -> SimScena
         "C16" => {
             opts.n_targets = 1 + rng.below(3) as usize;
             opts.n_bystanders = rng.below(2) as usize;
-            mprotect_faults(&mut rng, &mut pol, &mut classes, 6);
+            mprotect_faults(&mut rng, &mut pol, &mut classes, &mut opts, 6);
             let l = gen_layout(&mut rng, arch, os, &pol, &opts);
             let mut ops = Vec::new();
             for _ in 0..(4 + rng.below(12)) {
